@@ -34,6 +34,9 @@ def run_property(pid, tier, repo=None, write=True):
                 "expression_helpers": {k: sorted(set(v)) for k, v in sorted(getattr(idx, "opened", {}).items())},
                 "cursor_lists": {k: v for k, v in sorted(getattr(idx, "scalarised", {}).items())},
                 "yield_from_comprehensions": dict(sorted(getattr(idx, "yieldfroms", {}).items())),
+                "pinned_parameter_names": dict(sorted(getattr(idx, "param_names", {}).items())),
+                "functional_idioms": dict(sorted(getattr(idx, "functional", {}).items())),
+                "replicated_unpacking": dict(sorted(getattr(idx, "replicated", {}).items())),
                 "enumerate_idioms": dict(sorted(getattr(idx, "enumerates", {}).items())),
                 "sum_loops": {k: v for k, v in sorted(getattr(idx, "sums", {}).items())},
                 "extend_loops": {k: v for k, v in sorted(getattr(idx, "extends", {}).items())}}
